@@ -40,6 +40,11 @@ pub fn nontrivial(r: &Ref) -> bool {
     }
 }
 
+/// When set, `check_case` does not judge results against the reference walkers (used by the
+/// reference-free relational check C06, which must not report value disagreements that belong to
+/// other properties).
+pub static NO_REFERENCE_VERDICT: std::sync::atomic::AtomicBool = std::sync::atomic::AtomicBool::new(false);
+
 /// Run one case through target and reference; record counts and a violation if they disagree.
 /// Returns the implementation result for further (check-specific) oracles.
 pub fn check_case(prop: &'static str, t: &Target, b: &[u8], sink: &mut Sink) -> (Got, Ref) {
@@ -47,6 +52,9 @@ pub fn check_case(prop: &'static str, t: &Target, b: &[u8], sink: &mut Sink) -> 
     let r = (t.reference)(b);
     sink.case(fnv(fnv(0, t.name.as_bytes()), b), nontrivial(&r));
     sink.count(t.name, class_pair(&r, &g));
+    if NO_REFERENCE_VERDICT.load(std::sync::atomic::Ordering::Relaxed) {
+        return (g, r);
+    }
     if let Some(what) = disagree(&r, &g) {
         sink.violation(
             format!("{} {}", t.name, hexs(b)),
